@@ -27,15 +27,19 @@ def HeldAlong : St → List Ev → Prop
 
 theorem connErr_lvl (s : St) (to : Option Nat) (k : WErr) (hh : held (connErr s to k).1 ≠ []) :
     lvl (connErr s to k).1 = to.getD 0 + 1 := by
-  by_cases hge : to.getD 0 ≥ MAX_BACKEND_RETRY
-  · simp [connErr, hge, held, retryTasks] at hh
-  · simp [connErr, hge, lvl]
+  by_cases he : s.tasks = []
+  · simp [connErr, he, held, retryTasks] at hh
+  · by_cases hge : to.getD 0 ≥ MAX_BACKEND_RETRY
+    · simp [connErr, he, hge, held, retryTasks] at hh
+    · simp [connErr, he, hge, lvl]
 
 theorem connErr_lvl_le (s : St) (to : Option Nat) (k : WErr) :
     lvl (connErr s to k).1 ≤ MAX_BACKEND_RETRY := by
-  by_cases hge : to.getD 0 ≥ MAX_BACKEND_RETRY
-  · simp [connErr, hge, lvl]
-  · simp [connErr, hge, lvl]; omega
+  by_cases he : s.tasks = []
+  · simp [connErr, he, lvl]
+  · by_cases hge : to.getD 0 ≥ MAX_BACKEND_RETRY
+    · simp [connErr, he, hge, lvl]
+    · simp [connErr, he, hge, lvl]; omega
 
 /-- one step: while something is still held afterwards, the level moved by exactly the failure -/
 theorem step_lvl (s : St) (e : Ev) (h : WF s) (hh : held (step s e).1 ≠ []) :
@@ -86,8 +90,7 @@ theorem step_lvl (s : St) (e : Ev) (h : WF s) (hh : held (step s e).1 ≠ []) :
       by_cases htk : tick = true
       · by_cases hto : (!s.taskEmpty && !s.responseReceived) = true
         · simp only [step, hph, htk, hto, if_true] at hh
-          have hge : MAX_BACKEND_RETRY ≥ MAX_BACKEND_RETRY := Nat.le_refl _
-          simp [connErr, held, retryTasks] at hh
+          by_cases he : s.tasks = [] <;> simp [connErr, he, held, retryTasks] at hh
         · simp [step, isFail, hph, htk, hto, lvl]
       · simp [step, isFail, hph, htk, lvl]
   | connecting =>
